@@ -111,6 +111,8 @@ type H struct {
 	okCount  int
 	faultOK  bool
 	advanced bool
+	// judgeReturn: completed logins must land on the URL their session first asked for (C03/C13)
+	judgeReturn bool
 	// idle-timeout bookkeeping: every request presenting an id counts as a use of it (the most permissive reading),
 	// so a gap longer than the idle timeout between two presentations ends the session whatever the store did
 	lastSeen map[string]time.Time
@@ -404,7 +406,8 @@ func (h *H) updateModel(s *step) {
 				ss.Pending = false
 				ss.LoggedIn++
 				// a completed login sends the browser back to what this session first asked for - nothing else
-				if ss.Login.Requested != "" && r.Location() != ss.Login.Requested {
+				// (a clause of C03/C13: judged only in histories run on their behalf)
+				if h.judgeReturn && ss.Login.Requested != "" && r.Location() != ss.Login.Requested {
 					h.c.Violation("wrong-return-url", "step #%d: the login of session %s completes with Location %q; the session first asked for %q", s.N, short(single, 12), r.Location(), ss.Login.Requested)
 				}
 			}
@@ -564,9 +567,19 @@ func (h *H) exec(o *op) {
 				h.exec(&op{K: "nav", B: last, Target: "/crowd"})
 			}
 		}
-		if o.B2 == 1 && last >= 0 && h.pending[last] != "" {
+		if o.B2 == 1 && last >= 0 {
 			cb := h.pending[last]
-			h.do(&op{K: "attack", B: o.B, B2: last, Att: "replay-callback"}, b, b.ReqFor(cb))
+			if cb == "" {
+				// its login is complete: the callback that completed it
+				for i := len(h.cbHist) - 1; i >= 0 && cb == ""; i-- {
+					if h.cbOwner[i] == last {
+						cb = h.cbHist[i]
+					}
+				}
+			}
+			if cb != "" {
+				h.do(&op{K: "attack", B: o.B, B2: last, Att: "replay-callback"}, b, b.ReqFor(cb))
+			}
 		}
 	case "advance":
 		d := o.D
